@@ -18,6 +18,10 @@ def run(ctx):
     # MIR must hold exactly the literals that program needs (decided against the program: C09b + the literal part of faithfulb)
     mp.second_compilation_case(ctx, {"C09b": mp.on_mir("C09b"), "literals-needed": mp.on_case("faithfulb")},
                                lambda name, prog, res: ("C09/tables", "a MIR table is not exactly what the program's outputs need"))
+    mp.may_reject_family(ctx, {"C09b": mp.on_mir("C09b"), "literals-needed": mp.on_case("faithfulb")},
+                         lambda name, prog, res: ("C09/tables", "a MIR table is not exactly what the program's outputs need"),
+                         mp.text_variant_programs(), "unusual-but-legal-spelling",
+                         "outputs handed over as a generator / iterator / tuple, literals built from Python booleans", "text_variants")
     if ok_x:
         dis = mp.tie_model(ctx, progs, results)
         if dis is not None:
